@@ -92,8 +92,11 @@ def gen_case(rng, idx, quick, corner=None):
         et, batch, tls, role = corner
     thr = rng.choice([1, 1, 2, 3, 4])
     c = {"id": idx, "role": role, "tls": int(tls), "et": int(et), "batch": int(batch), "thr": thr,
-         "sndbuf": rng.choice([0, 0, 4608, 8192, 32768]), "rcvbuf": rng.choice([0, 0, 4608]),
-         "prcvbuf": rng.choice([0, 0, 4608, 16384]),
+         # a small SEND buffer makes send()/SSL_write really return short counts / WANT_WRITE. Receive buffers are never made tiny:
+         # the kernel then drops in-window segments (truesize accounting) and the connection crawls through RTO back-off
+         # (observed: 17 s for 180 KB), which says nothing about the engine.
+         "sndbuf": rng.choice([0, 0, 4608, 8192, 32768]), "rcvbuf": rng.choice([0, 0, 65536]),
+         "prcvbuf": rng.choice([0, 0, 65536]),
          "mwq": 1024, "cob": 1, "chunk": rng.choice([65536, 65536, 4096, 1, 17, 1000]),
          "early": int(rng.chance(1, 3)), "hsdelay": rng.choice([0, 0, 300, 1500]) if tls else 0, "expectend": 0}
     # payloads
@@ -201,7 +204,7 @@ def gen_boundary_cases(rng, start, n):
             ln = rng.choice([16383, 16384, 16385, 32768, 32769, 65535, 65536, 65537])
             sends = [[ln, rng.range(0, 250), 0, 0], [rng.choice([1, ln]), rng.range(0, 250), 0, 0]]
             wf = [rng.choice(["c16384", "c16383", "c16385", "m1", "c1", "p", "f500"]) for _ in range(rng.range(1, 8))]
-            c = base_case(rng, i, sends=sends, wf=wf, sndbuf=rng.choice([0, 4608]), prcvbuf=rng.choice([0, 4608]), cat="boundary-record")
+            c = base_case(rng, i, sends=sends, wf=wf, sndbuf=rng.choice([0, 4608]), prcvbuf=rng.choice([0, 65536]), cat="boundary-record")
         else:           # sends in the connect / TLS-handshake window, several threads
             thr = rng.range(1, 4)
             sends = [[rng.choice([1, 100, 5000, 40000]), rng.range(0, 250), rng.below(thr), 0] for _ in range(rng.range(1, 8))]
@@ -335,8 +338,11 @@ def monitor(c, r):
         bad.append("T1: the peer's byte stream is not a prefix of the accepted payloads concatenated in accepted order: first difference at byte %d (peer read %d, accepted %d)"
                    % (g("peer_diff"), g("peer_rx"), g("exp_total")))
     taken = sum(int(t[2:]) for sg in r["segs"] for t in sg.split(";") if t.startswith("S:"))
-    if taken != len(r["acc"]) and g("closed_cb") > 0:
-        bad.append("T5: enqueue() accepted %d commands but process()/shutdownDrain took %d from the queue (a command was lost or duplicated)" % (len(r["acc"]), taken))
+    # stop() clears _running before it enqueues Shutdown: the loop may already have drained and closed the queue, so the final
+    # Shutdown command (Q) is taken from the queue or legitimately refused; every other accepted command must be taken exactly once
+    n_acc = len([a for a in r["acc"] if a != "Q"])
+    if not (n_acc <= taken <= n_acc + 1) and g("closed_cb") > 0:
+        bad.append("T5: enqueue() accepted %d commands (+ Shutdown) but process()/shutdownDrain took %d from the queue (a command was lost or duplicated)" % (n_acc, taken))
     if g("moved") and not drop_policy:
         bad.append("T1: an SSL_write that had answered WANT_READ/WANT_WRITE was retried with a different buffer or a shorter length (%d time(s))" % g("moved"))
     if g("dlv_diff") != -1:
